@@ -52,6 +52,11 @@ func (self *Compiler) compileFn(node ast.AnalyzedFunctionDefinition) (annotation
 	self.pushScope()
 	defer self.popScope()
 
+	// Function literals are compiled in the middle of their enclosing function.
+	prevTryDepth := self.tryDepth
+	self.tryDepth = 0
+	defer func() { self.tryDepth = prevTryDepth }()
+
 	// Compile annotations.
 	if node.Annotation != nil {
 		compiledItems := make([]CompiledAnnotation, len(node.Annotation.Items))
